@@ -32,8 +32,9 @@
 (*                                                                         *)
 (* Deliberately unconstrained (Unconstrained(f, rq) / outcome sets):       *)
 (*   - error texts, and which error is reported when several apply         *)
-(*   - a present-but-empty text "" (is it "present"?) and texts outside    *)
-(*     the conversion table                                                *)
+(*   - an empty text "" in a path parameter or a JSON value (for header,  *)
+(*     cookie, query and form "" is PRESENT, see EmptyCapable) and texts   *)
+(*     outside the conversion table                                        *)
 (*   - a JSON body whose value is not a well-typed JSON literal of the     *)
 (*     field's kind (sonic rejects the whole body)                         *)
 (*   - which of several repeated values a scalar field takes               *)
@@ -106,12 +107,19 @@ Look(tg, rq, fb) == IF tg.src = "form" /\ fb /\ Vals(rq, "form", tg.name) = << >
 
 Required(f) == \E i \in DOMAIN f.tags : f.tags[i].req
 
-\* conversion of the texts found (or of the default) into the field's kind
-ValOf(kind, texts) ==
-    IF IsSlice(kind)
-    THEN {IF \A i \in DOMAIN texts : ConvOk(Base(kind), texts[i])
-          THEN List([i \in DOMAIN texts |-> ConvVal(Base(kind), texts[i])]) ELSE Err}
-    ELSE {IF ConvOk(Base(kind), texts[i]) THEN Val(ConvVal(Base(kind), texts[i])) ELSE Err : i \in DOMAIN texts}
+\* Sources that can carry a present-but-EMPTY value ("X-A:", "Cookie: a=", "?a=", form "a="): there the empty text
+\* counts as PRESENT (it wins over lower-priority sources and satisfies `required`).  What the field then holds is
+\* what the code does: a scalar takes its declared default if it has one, otherwise "" is converted like any text
+\* (an error for bool/numbers, "" for strings); a slice converts every element ("" included) and ignores the default.
+EmptyCapable == {"form", "query", "cookie", "header"}
+
+\* conversion of the texts found (or of the default: def = << >> then) into the field's kind
+ValOf(kind, texts, def) ==
+    LET eff(t) == IF t = "" /\ def # << >> /\ ~IsSlice(kind) THEN def[1] ELSE t
+    IN  IF IsSlice(kind)
+        THEN {IF \A i \in DOMAIN texts : ConvOk(Base(kind), texts[i])
+              THEN List([i \in DOMAIN texts |-> ConvVal(Base(kind), texts[i])]) ELSE Err}
+        ELSE {IF ConvOk(Base(kind), eff(texts[i])) THEN Val(ConvVal(Base(kind), eff(texts[i]))) ELSE Err : i \in DOMAIN texts}
 
 ------------------------------------------------------------------------------
 (* The property, declaratively. *)
@@ -124,9 +132,9 @@ Winner(f, rq, fb) == LET P == PresentTags(f, rq, fb)
 Out(f, rq, fb) ==
     LET lk == [i \in DOMAIN f.tags |-> Look(f.tags[i], rq, fb)]
         P  == {i \in DOMAIN f.tags : lk[i] # << >>}
-    IN  IF P # {} THEN ValOf(f.kind, lk[CHOOSE i \in P : \A j \in P : Rank(f.tags[i].src) <= Rank(f.tags[j].src)])
+    IN  IF P # {} THEN ValOf(f.kind, lk[CHOOSE i \in P : \A j \in P : Rank(f.tags[i].src) <= Rank(f.tags[j].src)], f.def)
         ELSE IF Required(f)   THEN {Err}
-        ELSE IF f.def # << >> THEN ValOf(f.kind, f.def)
+        ELSE IF f.def # << >> THEN ValOf(f.kind, f.def, << >>)
         ELSE {Zero(f.kind)}
 
 Outcomes(f, rq) == IF IsSlice(f.kind) /\ \E i \in DOMAIN f.tags : f.tags[i].src = "form"
@@ -136,7 +144,7 @@ Unconstrained(f, rq) ==
     \E i \in DOMAIN f.tags :
         LET tg == f.tags[i]
             tx == IF tg.src = "form" THEN Vals(rq, "form", tg.name) \o Vals(rq, "query", tg.name) ELSE Vals(rq, tg.src, tg.name)
-        IN  \/ \E j \in DOMAIN tx : tx[j] = "" \/ tx[j] \notin Text
+        IN  \/ \E j \in DOMAIN tx : tx[j] \notin Text \/ (tx[j] = "" /\ tg.src \notin EmptyCapable)
             \/ tg.src = "json" /\ \E j \in DOMAIN tx : ~ConvOk(Base(f.kind), tx[j])
             \/ tg.src = "json" /\ ~IsSlice(f.kind) /\ Len(tx) > 1
 
@@ -171,9 +179,9 @@ ExecField(d, rq) ==
     LET st == Loop(d, rq, 1, FALSE)
     IN  IF st.err THEN Err
         ELSE IF st.found # << >>
-             THEN (IF IsSlice(d.kind) THEN CHOOSE o \in ValOf(d.kind, st.found) : TRUE
-                                      ELSE CHOOSE o \in ValOf(d.kind, <<st.found[1]>>) : TRUE)
-        ELSE IF d.def # << >> THEN CHOOSE o \in ValOf(d.kind, d.def) : TRUE
+             THEN (IF IsSlice(d.kind) THEN CHOOSE o \in ValOf(d.kind, st.found, d.def) : TRUE
+                                      ELSE CHOOSE o \in ValOf(d.kind, <<st.found[1]>>, d.def) : TRUE)   \* text == "" && default != "" => default
+        ELSE IF d.def # << >> THEN CHOOSE o \in ValOf(d.kind, d.def, << >>) : TRUE
         ELSE Zero(d.kind)
 
 \* the decoder closure returned by GetReqDecoder: field decoders run in order, each writes rv.Field(index)
@@ -205,6 +213,7 @@ MCReqOf(v) == [body |-> "none",
                                                      texts |-> v[i], lit |-> ""]], LAMBDA e : e.texts # << >>)]
 MCReqSet == {MCReqOf(v) : v \in [1 .. 6 -> {<< >>, <<"1">>}]}
             \cup {MCReqOf([i \in 1 .. 6 |-> IF i = k THEN <<"x">> ELSE o]) : k \in 1 .. 6, o \in {<< >>, <<"1">>}}
+            \cup {MCReqOf([i \in 1 .. 6 |-> IF i = k THEN <<"">> ELSE o]) : k \in 2 .. 5, o \in {<< >>, <<"1">>}}   \* present but empty
             \cup {[body |-> "none", vals |-> <<[src |-> "query", name |-> "a", texts |-> <<"0", "1">>, lit |-> ""]>>]}
 
 \* the code-shaped interpreter is one of the behaviours the property allows (for every field/request of the family)
